@@ -202,7 +202,23 @@ let () =
     | None -> ()
     | Some [ "M"; m ] -> sentinel := q_of_string m; print_endline ("M " ^ m); loop ()
     | Some (t :: _) when String.length t > 0 && t.[0] = '#' -> loop ()
-    | Some ("FORK" :: _) -> loop ()
+    | Some ("FORK" :: n :: _) ->
+      (* the C side runs the next n lines in a forked child: their effect on the state is discarded *)
+      let saved = !st in
+      let n = (try int_of_string n with _ -> 0) in
+      (try
+         for _ = 1 to n do
+           (match read_line_opt ic with
+            | None -> raise Exit
+            | Some l -> (match split_ws l with
+                | [] -> ()
+                | t :: _ when String.length t > 0 && t.[0] = '#' -> ()
+                | toks -> exec toks))
+         done
+       with Exit -> ());
+      st := saved;
+      print_endline "FORKEND OK";
+      loop ()
     | Some toks -> exec toks; loop ()
   in
   loop ()
